@@ -4,7 +4,7 @@ use crate::core::eval::REnd;
 use crate::core::generate::Cfg;
 use crate::core::harness as h;
 use crate::core::print::{self, Names};
-use crate::drive::{self, Analyzed, Lowered, RunEnd};
+use crate::drive::{self, Analyzed, RunEnd};
 use crate::engine::*;
 use crate::props::c02::{nontrivial, style_from};
 use crate::sps::{self, SEnd};
@@ -37,20 +37,20 @@ pub fn check_case(ctx: &Ctx, tape: &[u8], cfg: &Cfg, stats: &mut Stats) -> Resul
         | Analyzed::Executable(e, _) => e,
         | _ => return Ok(()),
     };
-    let lowered = match drive::lower(exe2) {
-        | Lowered::Ok(b) => b,
-        | Lowered::Refused(why) => {
+    let lowered = match drive::lower_to_sps(exe2) {
+        | drive::LoweredSps::Ok(b) => b,
+        | drive::LoweredSps::Refused(why) => {
             stats.count("discarded:lowering-refused");
             let _ = why;
             return Ok(());
         }
-        | Lowered::Panic(_) => {
+        | drive::LoweredSps::Panic(_) => {
             // a crash of the lowering is C18's subject
             stats.count("discarded:lowering-panic(C18)");
             return Ok(());
         }
     };
-    let srun = sps::run(&lowered.sps_low, &g.stdin, 20_000_000);
+    let srun = sps::run(&lowered, &g.stdin, 20_000_000);
     match (&srun.end, &irun.end) {
         | (SEnd::OutOfFuel | SEnd::Undetermined(_), _) | (_, RunEnd::OutOfFuel) => {
             stats.inconclusive += 1;
@@ -115,18 +115,18 @@ pub fn check_text(ctx: &Ctx, text: &str, stream: &str, stats: &mut Stats) -> Res
         | Analyzed::Executable(e, _) => e,
         | _ => return Ok(()),
     };
-    let lowered = match drive::lower(exe2) {
-        | Lowered::Ok(b) => b,
-        | Lowered::Refused(_) => {
+    let lowered = match drive::lower_to_sps(exe2) {
+        | drive::LoweredSps::Ok(b) => b,
+        | drive::LoweredSps::Refused(_) => {
             stats.count(&format!("{stream}:discarded:lowering-refused"));
             return Ok(());
         }
-        | Lowered::Panic(_) => {
+        | drive::LoweredSps::Panic(_) => {
             stats.count(&format!("{stream}:discarded:lowering-panic(C18)"));
             return Ok(());
         }
     };
-    let srun = sps::run(&lowered.sps_low, b"", 20_000_000);
+    let srun = sps::run(&lowered, b"", 20_000_000);
     match (&srun.end, &irun.end) {
         | (SEnd::OutOfFuel | SEnd::Undetermined(_), _) | (_, RunEnd::OutOfFuel) => {
             stats.inconclusive += 1;
